@@ -262,8 +262,8 @@ INJECTED = {
     "dse_delete_entries": ("patronus-dse", "patronus-dse/src/value_summary.rs", "kl/inject/value_summary.rs",
                            {"quick": ["delete_entries_n0", "delete_entries_n1", "delete_entries_n2", "delete_entries_n3", "delete_entries_requires_is_needed"],
                             "thorough": ["delete_entries_n0", "delete_entries_n1", "delete_entries_n2", "delete_entries_n3", "delete_entries_n4",
-                                         "delete_entries_n5", "delete_entries_requires_is_needed"]},
-                           "entries.len() <= 3 (quick) / <= 5 (thorough); contents and the ascending delete list are symbolic"),
+                                         "delete_entries_requires_is_needed"]},
+                           "entries.len() <= 3 (quick) / <= 4 (thorough; n = 5 exhausts the memory budget of the back end); contents and the ascending delete list are symbolic"),
     "meta_fixed_point": ("patronus", "patronus/src/expr/meta.rs", "kl/inject/meta.rs",
                          {"quick": ["get_fixed_point_n2", "get_fixed_point_n4", "get_fixed_point_n6"],
                           "thorough": ["get_fixed_point_n2", "get_fixed_point_n4", "get_fixed_point_n6", "get_fixed_point_n8"]},
